@@ -5,6 +5,7 @@ package harness
 import (
 	"fmt"
 	"strings"
+	"sync/atomic"
 
 	"pgregory.net/rapid"
 )
@@ -16,7 +17,11 @@ type G struct {
 	n int
 }
 
+// rapidDraws counts the values drawn from rapid in this process: a run that drew any is not an exhaustive enumeration
+var rapidDraws int64
+
 func (g *G) label(s string) string {
+	atomic.AddInt64(&rapidDraws, 1)
 	g.n++
 	return fmt.Sprintf("%s#%d", s, g.n)
 }
